@@ -26,12 +26,36 @@ type E2E struct {
 	Embed   bool    `json:"embed,omitempty"` // bare: the signature sits in the scriptPubKey (FindAndDelete)
 	Expl0   bool    `json:"explicit0,omitempty"` // taproot, hash type 0: 65-byte signature with an explicit 0x00 (BIP341: invalid)
 	Mode    string  `json:"mode"`            // good | flip | zero | otheridx
+	NoDer   bool    `json:"noder,omitempty"`  // p2pkh/bare: verify without VER_DERSIG (a pre-BIP66 spend)
+	SigLen  int     `json:"siglen,omitempty"` // p2pkh/bare: lax-DER signature padded (zero bytes in front of R) to exactly this many bytes incl. the hash type
 	Key     string  `json:"key"`
 }
 
 const e2eFlags = script.VER_P2SH | script.VER_DERSIG | script.VER_WITNESS | script.VER_TAPROOT | script.VER_NULLFAIL
 
 func pushData(d []byte) []byte { return refPush(d) }
+
+// padSig re-encodes `30 L 02 lenR R 02 lenS S ht` with zero bytes in front of R so that the whole signature
+// (hash type included) has exactly `target` bytes; one-byte lengths throughout (what a pre-BIP66 parser that
+// reads the length bytes as they are accepts), so target <= 258. Returns nil when that is not possible.
+func padSig(sigWithHt []byte, target int) []byte {
+	pad := target - len(sigWithHt)
+	if pad == 0 {
+		return sigWithHt
+	}
+	if pad < 0 || len(sigWithHt) < 9 || 4+int(sigWithHt[3]) > len(sigWithHt)-1 {
+		return nil
+	}
+	lenR := int(sigWithHt[3])
+	if lenR+pad > 255 || int(sigWithHt[1])+pad > 255 {
+		return nil
+	}
+	rr := sigWithHt[4 : 4+lenR]
+	rest := sigWithHt[4+lenR : len(sigWithHt)-1] // 02 lenS S
+	nr := append(make([]byte, pad), rr...)
+	body := cat([]byte{0x02, byte(len(nr))}, nr, rest)
+	return cat([]byte{0x30, byte(len(body))}, body, sigWithHt[len(sigWithHt)-1:])
+}
 
 // layout: [OP_1 OP_DROP]? [CODESEP]? <extra> <pubkey push> [CODESEP]? CHECKSIG [CODESEP]?
 // returns the script, the script code from the last executed code separator, and the opcode position of it.
@@ -96,6 +120,8 @@ func runE2E(e *E2E) {
 	var spk, scriptSig []byte
 	var wit [][]byte
 	defined := true
+	lax := false
+	var laxControl *ctl
 	var refDigest, trueDigest []byte
 	htb := byte(e.Ht)
 	switch e.Kind {
@@ -120,6 +146,19 @@ func runE2E(e *E2E) {
 		}
 		refDigest, trueDigest = dg(refIdx), dg(idx)
 		sig := append(ecdsaSign(d, e.mangle(refDigest), nonce), htb)
+		if e.SigLen > 0 {
+			if ps := padSig(sig, e.SigLen); ps != nil {
+				lax = len(ps) != len(sig)
+				sig = ps
+				r.Hit(fmt.Sprintf("e2e:sig-push-len=%s", lenClass(len(sig))))
+			}
+		}
+		if e.Kind == "bare" && lax && e.NoDer {
+			// control: the same signature in the scriptSig (same script code, same digest, nothing to remove). When the
+			// interpreter's pre-BIP66 parser does not take this encoding the case says nothing about signature removal.
+			cspk, _, _ := e.layout(nil, pub)
+			laxControl = &ctl{spk: cspk, scriptSig: pushData(sig)}
+		}
 		if e.Kind == "p2pkh" {
 			scriptSig = cat(pushData(sig), pushData(pub))
 		} else if e.Embed {
@@ -211,28 +250,70 @@ func runE2E(e *E2E) {
 	}
 	// valid exactly when a digest is defined for THIS input and the signature was made over it
 	want := defined && bytes.Equal(e.mangle(refDigest), trueDigest)
-	got := func() (ok bool) {
+	flags := uint32(e2eFlags)
+	if e.NoDer {
+		flags &^= script.VER_DERSIG
+	}
+	if lax && !e.NoDer {
+		want = false // BIP66: a padded signature is not strict DER
+	}
+	verify := func(spk, scriptSig []byte) (ok bool) {
 		defer func() {
 			if recover() != nil {
 				ok = false
 			}
 		}()
-		return script.VerifyTxScript(spk, &script.SigChecker{Tx: tx, Idx: idx, Amount: amount}, e2eFlags)
-	}()
+		tx.TxIn[idx].ScriptSig = scriptSig
+		return script.VerifyTxScript(spk, &script.SigChecker{Tx: tx, Idx: idx, Amount: amount}, flags)
+	}
+	if laxControl != nil && want {
+		if !verify(laxControl.spk, laxControl.scriptSig) {
+			r.Hit("e2e:lax-der-encoding-not-accepted-by-the-interpreter(skipped)")
+			return
+		}
+		r.Hit("e2e:lax-der-control-accepted")
+	}
+	got := verify(spk, scriptSig)
 	class := e.Mode
+	if lax && e.NoDer {
+		class += ",pre-bip66-lax-sig"
+		if e.Embed {
+			class += "-embedded"
+		}
+	}
 	if !defined {
 		class = "undefined-" + e.Mode
 	}
-	r.Eval("e2e:"+e.Kind+":"+class, fmt.Sprintf("e2e/%s/%s/%d/%x/%s", e.Kind, e.Mode, idx, e.Ht, vlib.ShortHash([]byte(c.oracleLine()))))
+	r.Eval("e2e:"+e.Kind+":"+class, fmt.Sprintf("e2e/%s/%s/%d/%x/%d%v%v/%s", e.Kind, e.Mode, idx, e.Ht, e.SigLen, e.NoDer, e.Embed, vlib.ShortHash([]byte(c.oracleLine()))))
 	if got != want {
 		key := "e2e-" + e.Kind
 		what := fmt.Sprintf("%s spend of input %d with hash type 0x%02x, signature made over %s digest: VerifyTxScript says %v, expected %v", e.Kind, idx, e.Ht, e.Mode, got, want)
+		if e.Embed && laxControl != nil && want {
+			key = "e2e-signature-removal"
+			what = fmt.Sprintf("pre-BIP66 spend of input %d whose script code embeds its own signature as a push of %d bytes: VerifyTxScript refuses it, although the same signature is accepted from the scriptSig (same script code after FindAndDelete, same reference digest) - the signature push was not removed from the script code", idx, e.SigLen)
+		}
 		if !defined && got {
 			key = "taproot-undefined-digest-accepted"
 			what = fmt.Sprintf("%s spend, hash type 0x%02x, input %d of a transaction with %d outputs: BIP341 defines no digest, yet VerifyTxScript accepts a signature made over %x", e.Kind, e.Ht, idx, len(c.Outs), e.mangle(refDigest))
 		}
 		r.PropFail(key, what, map[string]interface{}{"e2e": e})
 	}
+}
+
+type ctl struct{ spk, scriptSig []byte }
+
+func lenClass(n int) string {
+	switch {
+	case n < 75:
+		return "<75"
+	case n <= 77:
+		return fmt.Sprint(n)
+	case n < 255:
+		return "78..254"
+	case n <= 256:
+		return fmt.Sprint(n)
+	}
+	return ">256"
 }
 
 func oneInTx() Case {
@@ -266,6 +347,17 @@ func e2eCorpus() {
 	}
 	runE2E(&E2E{Kind: "bare", Tx: oneInTx(), Idx: 0, Ht: 1, Mode: "good", Key: key, Embed: true})
 	runE2E(&E2E{Kind: "bare", Tx: oneInTx(), Idx: 0, Ht: 0x83, Mode: "good", Key: key, Embed: true, PreSep: true, PostSep: true})
+	// signature removal at the push-opcode boundaries: a pre-BIP66 spend whose script code embeds its own (lax-DER
+	// padded) signature as a push of exactly 75 (direct), 76, 77, 255 (PUSHDATA1), 256 (PUSHDATA2) bytes
+	for _, n := range []int{75, 76, 77, 100, 255, 256} {
+		for _, pre := range []bool{false, true} {
+			runE2E(&E2E{Kind: "bare", Tx: oneInTx(), Idx: 0, Ht: 1, Mode: "good", Key: key, Embed: true, NoDer: true, SigLen: n, PreSep: pre, PostSep: pre})
+			runE2E(&E2E{Kind: "bare", Tx: oneInTx(), Idx: 1, Ht: 0x83, Mode: "flip", Key: key, Embed: true, NoDer: true, SigLen: n, PreNop: pre})
+		}
+		runE2E(&E2E{Kind: "bare", Tx: oneInTx(), Idx: 0, Ht: 1, Mode: "good", Key: key, NoDer: true, SigLen: n})             // from the scriptSig
+		runE2E(&E2E{Kind: "bare", Tx: oneInTx(), Idx: 0, Ht: 1, Mode: "good", Key: key, Embed: true, SigLen: n})              // BIP66 active: invalid
+		runE2E(&E2E{Kind: "p2pkh", Tx: oneInTx(), Idx: 1, Ht: 2, Mode: "good", Key: key, NoDer: true, SigLen: n})
+	}
 	runE2E(&E2E{Kind: "p2tr-key", Tx: oneInTx(), Idx: 0, Ht: 0, Mode: "good", Key: key, Annex: strp("50")})
 	runE2E(&E2E{Kind: "p2tr-key", Tx: oneInTx(), Idx: 0, Ht: 0, Mode: "good", Key: key, Expl0: true})
 	runE2E(&E2E{Kind: "p2tr-script", Tx: oneInTx(), Idx: 1, Ht: 0, Mode: "good", Key: key, Expl0: true, MidSep: true})
@@ -297,6 +389,17 @@ func genE2E(g *vlib.Rng) *E2E {
 	}
 	if e.Kind == "bare" {
 		e.Embed = g.Bool()
+	}
+	if (e.Kind == "bare" || e.Kind == "p2pkh") && g.Chance(1, 2) {
+		// a pre-BIP66 spend with a lax-DER padded signature (mostly embedded in the script code when bare)
+		e.NoDer = g.Chance(5, 6)
+		e.SigLen = []int{75, 76, 77, 78 + g.Intn(177), 255, 256, 257, 258}[g.Intn(8)]
+		if e.Kind == "bare" && g.Chance(2, 3) {
+			e.Embed = true
+			if g.Chance(2, 3) {
+				e.MidSep = false // keep the signature push inside the script code
+			}
+		}
 	}
 	switch g.Intn(8) {
 	case 0, 1:
